@@ -166,7 +166,11 @@ def gen_schema(rng, idx, force_service=True):
                                                             "stream " if me["ss"] else "", me["out"]))
         lines.append("}")
         service = {"name": svc, "methods": methods}
-    return {"protos": {"main.proto": "\n".join(lines) + "\n", "other.proto": "\n".join(other_proto) + "\n"},
+    protos = {"main.proto": "\n".join(lines) + "\n", "other.proto": "\n".join(other_proto) + "\n"}
+    if rng.random() < 0.4:
+        # the same package spread over a second file that needs no typing name at all (it comes LAST in the request)
+        protos["ztail.proto"] = 'syntax = "proto3";\npackage %s;\nmessage Tail { int32 z = 1; string note = 2; }\n' % pkg
+    return {"protos": protos,
             "pkg": pkg, "other": other, "messages": msgs, "enums": enums, "service": service}
 
 
